@@ -28,6 +28,7 @@ type seqCfg struct {
 	Extra    []string // names that exist on the service but get no events
 	Initial  string   // initial cache document ("" = none)
 	Events   []string // if set, the event alphabet (default: all events for Names)
+	CtxLike  bool     // scripted service failures look like timeouts that are not the caller's
 	Poller   bool     // the store runs its polling task (on a ticker that never fires), so Close goes through the task's shutdown
 	AutoRead bool     // after every event, take a handle for every declared name and read it
 	NoDedup  bool     // explore the full history tree: two histories are never merged, so state the
@@ -156,6 +157,7 @@ func (w *world) noteServed(name, v string) {
 // start builds the world in its initial state.
 func startWorld(cfg seqCfg) *world {
 	w := &world{cfg: cfg, svc: NewSvc(), cache: &HCache{}, clock: epoch, m: map[string]*mEntry{}, served: map[string]map[string]bool{}}
+	w.svc.CtxLikeErr = cfg.CtxLike
 	for _, n := range cfg.Names {
 		w.svc.Put(n)
 	}
